@@ -380,8 +380,102 @@ def constant_arguments(ck, prog):
     r.note('%d (function, callee) pairs compared with the reference' % n)
 
 
+# ---------------------------------------------------------------------------
+# integer width agreement between record fields
+
+_WIDTH = {'char': 8, 'signed char': 8, 'unsigned char': 8, 'short': 16, 'unsigned short': 16, 'int': 32,
+          'unsigned int': 32, 'unsigned': 32, 'long': 64, 'unsigned long': 64, 'long long': 64,
+          'unsigned long long': 64, 'dbus_bool_t': 32, 'dbus_uint32_t': 32, 'dbus_int32_t': 32,
+          'dbus_uint16_t': 16, 'dbus_int16_t': 16, 'dbus_uint64_t': 64, 'dbus_int64_t': 64, 'size_t': 64,
+          'ssize_t': 64, 'dbus_uid_t': 64, 'dbus_gid_t': 64, 'dbus_pid_t': 64, 'uid_t': 32, 'gid_t': 32,
+          'pid_t': 32, 'uintptr_t': 64, 'intptr_t': 64}
+
+# reviewed mixed-width sites: (function, spelling of the narrower side)
+WIDTH_REVIEWED = {
+    ('_dbus_message_loader_get_unix_fds', 'loader->n_unix_fds_allocated'):
+        'the limit was checked to fit before it is copied; the comparison promotes the narrower side',
+    ('_dbus_mem_pool_alloc', 'pool->block_size'): 'block_size is a small positive int; promoted for the comparison',
+}
+
+
+def _width(t):
+    if not t:
+        return None
+    return _WIDTH.get(t.replace('const ', '').replace('volatile ', '').strip())
+
+
+def field_widths(ck, prog):
+    from .cfg import estr, is_member, written_lvalues
+    pid = ck.pid
+    files = anchor_files(pid)
+    r = ck.rule(pid + '.W', 'integer widths agree where one record field is copied to or compared with another in '
+                'this property\'s files: no field receives the value of a wider field, and two fields that are '
+                'compared have the same width (bit-fields excluded); the few reviewed sites are listed', 'TAB',
+                breaks='a counter, stamp or length kept in two places stops comparing equal once it exceeds the '
+                       'narrower field (e.g. a per-connection stamp narrower than the global stamp it mirrors)',
+                floor=1)
+    bits = set()
+    for rn, rec in prog.records.items():
+        for f in rec['fields']:
+            if f.get('bits'):
+                bits.add((rn, f['name']))
+    n = 0
+
+    def mem(e):
+        return is_member(e) and (e.get('rec'), e.get('field')) not in bits
+
+    for f in prog.funcs.values():
+        if f.file not in files or not prog.is_production(f):
+            continue
+        tops = []
+        for b, i, ev in f.events():
+            for lhs, how, rhs in written_lvalues(ev):
+                if how == '=' and rhs is not None and mem(lhs) and mem(rhs):
+                    wl, wr = _width(lhs.get('t')), _width(rhs.get('t'))
+                    if wl and wr:
+                        n += 1
+                        key = '%s:%s<-%s' % (f.name, estr(lhs), estr(rhs))
+                        if wl < wr and (f.name, estr(lhs)) not in WIDTH_REVIEWED:
+                            r.violation(key, f.name, f.file, ev['line'],
+                                        '%s (%s, %d bits) receives %s (%s, %d bits): values beyond the narrower '
+                                        'field are truncated' % (estr(lhs), lhs.get('t'), wl, estr(rhs), rhs.get('t'), wr))
+                        else:
+                            r.ok(key)
+            tops.append((ev.get('init') if ev['ev'] == 'decl' else ev.get('e'), ev['line']))
+        for blk in f.blocks.values():
+            t = blk.get('term')
+            if t and t.get('cond') is not None:
+                tops.append((t['cond'], t['line']))
+        seen = set()
+        for top, line in tops:
+            if not isinstance(top, dict):
+                continue
+            for x in walk(top):
+                if x.get('k') == 'bin' and x.get('op') in ('==', '!=', '<', '>', '<=', '>=') \
+                        and mem(x['l']) and mem(x['r']):
+                    wl, wr = _width(x['l'].get('t')), _width(x['r'].get('t'))
+                    if not (wl and wr):
+                        continue
+                    key = '%s:%s%s%s' % (f.name, estr(x['l']), x['op'], estr(x['r']))
+                    if key in seen:
+                        continue
+                    seen.add(key)
+                    n += 1
+                    narrow = x['l'] if wl < wr else x['r']
+                    if wl != wr and (f.name, estr(narrow)) not in WIDTH_REVIEWED:
+                        r.violation(key, f.name, f.file, line,
+                                    '%s (%s) is compared with %s (%s): the two fields have different widths, so '
+                                    'they stop agreeing once the value exceeds the narrower one' % (
+                                        estr(x['l']), x['l'].get('t'), estr(x['r']), x['r'].get('t')))
+                    else:
+                        r.ok(key)
+    if n == 0:
+        r.skip('no field-to-field copy or comparison in %s' % ', '.join(sorted(files)))
+
+
 def run(ck, prog):
     error_discipline(ck, prog)
     onebit_stores(ck, prog)
     boundary_comparisons(ck, prog)
     constant_arguments(ck, prog)
+    field_widths(ck, prog)
